@@ -28,7 +28,9 @@ type Driver struct {
 }
 
 func StartDriver(path string) (*Driver, error) {
-	cmd := exec.Command(path)
+	// the extracted functions are not tail recursive (char lists, deep report trees): give the driver a large stack where the
+	// hard limit allows it, the default otherwise
+	cmd := exec.Command("/bin/sh", "-c", `ulimit -s 4000000 2>/dev/null || ulimit -s unlimited 2>/dev/null; exec "$0"`, path)
 	in, err := cmd.StdinPipe()
 	if err != nil {
 		return nil, err
